@@ -360,10 +360,13 @@ def _tamper_wire(ctx, case):
         nrep = {"n": 0}
 
         def on_exchange(conn, req, packets, meta, pos=pos, bit=bit, nrep=nrep, only_first=bool(bi % 2)):
+            good = dev.wrap(conn, frame) if bi % 4 == 2 else None
             p = bytearray(dev.wrap(conn, frame))
             nrep["n"] += 1
             if nrep["n"] == 1 or not only_first:
                 p[pos] ^= 1 << bit          # every reply altered, or (odd bit numbers) only the first: a retransmission would be answered intact
+            if good is not None:
+                return [(0, good), (0, bytes(p))]      # (every fourth bit) the altered response travels right behind an intact one
             return [(0, bytes(p))]
 
         dev.on_exchange = on_exchange
@@ -389,6 +392,10 @@ def _tamper_wire(ctx, case):
         except Exception as e:  # noqa: BLE001
             ctx.count(k, kind="tamper-wire-other-exception")
             ctx.violation("tamper-wire-other-exception", f"{type(e).__name__}: {e} (bit {bit} of byte {pos})", case, {"pos": pos, "bit": bit})
+            continue
+        if framing and bi % 4 == 2 and [bytes(g) for g in got] == [frame]:
+            # the altered copy behind an intact response was never recognised as a packet (framing bytes): only the intact one came back
+            ctx.count(k, kind="tamper-wire-unrecognised-behind-intact")
             continue
         if framing and bi % 2 and nrep["n"] >= 2 and [bytes(g) for g in got] == [frame]:
             # only the first reply was altered, in the bytes a framer uses to find packets: it was never recognised as a packet,
